@@ -2,7 +2,10 @@ package monitor
 
 import (
 	"bytes"
+	"context"
+	"errors"
 	"fmt"
+	"io"
 	"math"
 
 	"github.com/willabides/rjson"
@@ -136,6 +139,11 @@ func libraryErrors() []error {
 	add(e)
 	var typedNil *sentinelErr
 	out = append(out, typedNil) // a non-nil error interface holding a nil pointer
+	// well-known error values of the standard library and WRAPPED errors: a library that gives
+	// some error a meaning of its own (errors.Is(err, io.EOF) as "stop early", seeded change
+	// C07r6-m1) must still hand every one of them back unchanged
+	out = append(out, io.EOF, io.ErrUnexpectedEOF, context.Canceled, errors.New("EOF"),
+		fmt.Errorf("handler: %w", io.EOF), fmt.Errorf("handler: %w", out[0]))
 	return out
 }
 
